@@ -466,16 +466,17 @@ impl Check for C04 {
         "fault_enumeration"
     }
     fn rule_text(&self) -> String {
-        "four honest transcripts (status; login; transfer; transfer with valid cookies - each through the configuration phase with two ignorable packets) with exactly one mutation enumerated by run index over every frame: a BrokenPipe on the n-th server write; a client reset after any frame; a five-byte length prefix with the continuation bit still set followed by up to 300 KB; outer length set to -1 / 0 / -2^31 / 2^31-1 / 2097152 / max / max+1 / len+-1 (prefix delivered alone, body 10 s later); truncation at every byte offset followed by EOF or reset; every byte offset replaced by VarInt -1 / 2^31-1 / -2^31 / over-long zero / six-byte VarInt / 00 / 7f / 80 / ff / invalid UTF-8 with the outer length repaired; 1-300 random bytes appended after the frame; a bit flipped on the wire (ciphertext once encrypted); 12 Encryption Response variants (garbage of 0/1/127/128/129/1000 bytes, secrets of 0/15/17/32 bytes, zero token, other key); maximum frame 300 / 1024 / 10000 / 100000; a third of the runs under random segmentation. Non-trivial = the mutation was applied to a frame that was actually sent; distinct = distinct (event-order trace, mutation) hash.".into()
+        "four honest transcripts (status; login; transfer; transfer with valid cookies - each through the configuration phase with two ignorable packets) with exactly one mutation enumerated by run index over every frame: a BrokenPipe on the n-th server write; a client reset after any frame; a five-byte length prefix with the continuation bit still set followed by up to 300 KB; outer length set to -1 / 0 / -2^31 / 2^31-1 / 2097152 / max / max+1 / len+-1 (prefix delivered alone, body 10 s later); truncation at every byte offset followed by EOF or reset; every byte offset replaced by VarInt -1 / 2^31-1 / -2^31 / over-long zero / six-byte VarInt / 00 / 7f / 80 / ff / invalid UTF-8 with the outer length repaired; 1-300 random bytes appended after the frame; a bit flipped on the wire (ciphertext once encrypted); 12 Encryption Response variants (garbage of 0/1/127/128/129/1000 bytes, secrets of 0/15/17/32 bytes, zero token, other key); maximum frame 300 / 1024 / 10000 / 100000; a third of the runs under random segmentation. One evaluation in 25 is a history: the scenario is run 3 x (3..8) times with fresh client-chosen values (host name up to 240 bytes longer, player name, UUID, locale, brand, address) over adapter objects that persist (real OptionFilterAdapter with or without a hostname pattern around the scripted filter, real FixedLocalizationAdapter), and the live heap of the evaluating thread is read between the rounds. Non-trivial = the mutation was applied to a frame that was actually sent; distinct = distinct (event-order trace, mutation) hash.".into()
     }
     fn assumptions(&self) -> Vec<String> {
         vec![
             "allocation is measured as the largest single request made on the simulation thread while the connection future is being polled (service stubs run inside that poll; their small log allocations are included, the event-log growth is excluded)".into(),
+            "live memory in a history is the thread's allocated-minus-freed byte count at points where every connection of the round is over and the harness has dropped what it built; growth is only reported when two consecutive rounds each add more than 16 bytes per connection (a one-time fill of a cache is not growth), and not at all when a run of the history panicked (the kept panic messages are harness memory)".into(),
             "whether an over-long VarInt or trailing bytes inside a frame count as malformed is the codec's business (C09); for those only no-panic / bounded allocation / termination are required".into(),
         ]
     }
     fn components(&self) -> Value {
-        json!({"real": ["Connection::listen / receive_packet", "passage-packets reader (strings, byte arrays, enums, VarInt)", "crypto::decrypt / create_ciphers", "error mapping"], "stub": ["transport", "mutating client", "services", "counting allocator + panic hook (observation)"]})
+        json!({"real": ["Connection::listen / receive_packet", "passage-packets reader (strings, byte arrays, enums, VarInt)", "crypto::decrypt / create_ciphers", "error mapping", "OptionFilterAdapter and the Vec<T> filter chain of passage-adapters (around the scripted filter)", "FixedLocalizationAdapter"], "stub": ["transport", "mutating client", "services", "counting allocator (largest request, live bytes per thread) + panic hook (observation)"]})
     }
     fn count(&self, tier: Tier) -> u64 {
         match tier {
